@@ -20,6 +20,7 @@ import (
 
 	"go.miragespace.co/specter/kv/memory"
 	"go.miragespace.co/specter/spec/chord"
+	"go.miragespace.co/specter/spec/cipher"
 	"go.miragespace.co/specter/spec/pki"
 	"go.miragespace.co/specter/spec/protocol"
 	"go.miragespace.co/specter/spec/rpc"
@@ -33,8 +34,8 @@ import (
 )
 
 const (
-	srvApex = "hello.com"        // as in the repository's own fixtures
-	srvAcme = "acme.example.com" // idem
+	srvApex        = "hello.com"        // as in the repository's own fixtures
+	srvAcme        = "acme.example.com" // idem
 	acmeDifficulty = 18
 	acmeExpires    = 10 * time.Second
 )
@@ -216,7 +217,7 @@ func (p *stubProvider) GetCertificateWithContext(ctx context.Context, chi *tls.C
 	}
 	return fn(chi.ServerName)
 }
-func (p *stubProvider) OnHandshake(func(sni string)) {}
+func (p *stubProvider) OnHandshake(cipher.OnHandshakeFunc) {}
 
 // ---- clients -------------------------------------------------------------------------------
 
